@@ -180,7 +180,7 @@ theorem C08_registered {cfg : Cfg} {ctr : Int} {s : State} (hr : Reachable cfg c
   has stopped listening and is given up. -/
 
 def demoCfg : Cfg := ⟨1, 100, 4, 3, 3, 5⟩
-def demoPar (b : Nat) : Params := ⟨false, b, none, none⟩
+def demoPar (b : Nat) : Params := ⟨false, b, none, none, b / 20⟩  -- two ServantProxy objects sharing the adapter
 
 def demoActs : List Action :=
   [ .spawn (demoPar 10), .spawn (demoPar 20),
@@ -197,8 +197,8 @@ def demoActs : List Action :=
     .call 0 .decQ, .call 0 .del, .call 0 .post, .call 1 .decQ, .call 1 .del, .call 1 .post ]
 
 example : (run demoCfg (init demoCfg 0) demoActs).map
-      (fun s => (s.calls.map (fun c => (c.id, c.pc)), s.rcvs.map (·.pc), s.table, s.queueLen, s.invokeNum)) =
+      (fun s => (s.calls.map (fun c => (c.id, c.pc)), s.rcvs.map (·.pc), s.table, s.queueLens, s.invokeNum)) =
     some ([(2, .done (.reply ⟨2, false, 11⟩)), (1, .done (.reply ⟨1, false, 21⟩))],
-          [.delivered, .dropped, .pushed, .dropped, .delivered, .dropped], [], 0, 0) := by decide
+          [.delivered, .dropped, .pushed, .dropped, .delivered, .dropped], [], [0, 0], 0) := by decide
 
 end Tars.C08
